@@ -1,6 +1,7 @@
 ---------------------------- MODULE ConfiguredPkg_Trace ----------------------------
 (* Judge of C14 histories executed on a real PackageWrapper.
-   Tr[1] = {ev:"universe", flags, locked, attrs:[name], raw:{name:[node]}}   (raw attributes, projected)
+   Tr[1] = {ev:"universe", flags, locked, attrs:[name], raw:{name:[node]},   (raw attributes, projected)
+            opaque:[name]}   attributes with transitive USE-dep atoms: no View_meaning (DepSet gives them no meaning)
    then   {tid, i, op:"init"|"enable"|"disable"|"rollback"|"commit", vs:[flag], n,
            ret, exc,                         request granted?  name of an exception that escaped
            st:{use:[flag], log:[{add,f}]},   the configuration after the call (LimitedChangeSet)
@@ -26,7 +27,8 @@ Empty == [use |-> {}, log |-> <<>>]
 JudgeReads(e, obs) ==
   UNION {LET r == e.reads[k] IN
          If(r.view # r.fresh, "View_stale", r.attr)
-         \cup If(WellFormed(r.view) /\ ~ViewOK(H.raw[r.attr], obs.use, r.view), "View_meaning", r.attr)
+         \cup If(r.attr \notin AsSet(H.opaque) /\ WellFormed(r.view) /\ ~ViewOK(H.raw[r.attr], obs.use, r.view),
+                 "View_meaning", r.attr)
          \cup If(~WellFormed(r.view), "View_wellformed", r.attr)
          : k \in DOMAIN e.reads}
 
